@@ -483,6 +483,36 @@ def c05_scan_switch_empty_update():
     assert abs(float(w)) < 1e-6, w
     return float(w)
 
+@probe
+def c01_assess_choice_free_callee():
+    """open: a callee without random choices has an empty sub-map; assess of the trace's own choices raises MissingAddress"""
+    @gen
+    def det(x):
+        return x * 2.0
+    @gen
+    def model(x):
+        d = det(x) @ "d"
+        return normal(d, 1.0) @ "y"
+    tr = model.simulate(key, (1.0,))
+    score, _ = model.assess(tr.get_choices(), tr.get_args())
+    assert jnp.allclose(score, tr.get_score())
+    return float(score)
+
+@probe
+def c07_edit_uses_old_callee():
+    """open: edits dispatch on the callee stored in the OLD trace: data captured by the callee (partial_apply) stays stale under an argument change"""
+    @gen
+    def inner(mu):
+        return normal(mu, 1.0) @ "v"
+    @gen
+    def model(a):
+        return inner.partial_apply(a)() @ "x"
+    tr = model.simulate(key, (1.0,))
+    new, w, _, _ = tr.update(key, C.n(), Diff.unknown_change((3.0,)))
+    score, _ = model.assess(new.get_choices(), (3.0,))
+    assert jnp.allclose(score, new.get_score()), (float(score), float(new.get_score()))
+    return float(score)
+
 if __name__ == "__main__":
     names = sys.argv[1:] or list(P)
     bad = 0
